@@ -337,7 +337,10 @@ pub fn run_reader(input: &[u8], cfg: &CfgBits, steps: &[Step], src: &Src) -> Run
                     buf.clear();
                     crate::env::block_on(reader.read_to_end_into_async(qn, &mut buf)).map(|sp| (sp, None))
                 },
-                stream: |n: usize, via_buf: bool| -> std::io::Result<Vec<u8>> { crate::reader::take_raw(&mut reader.stream(), n, via_buf) });
+                stream: |n: usize, via_buf: bool| -> std::io::Result<Vec<u8>> {
+                    let remaining = input.len().saturating_sub(reader.stream().offset() as usize);
+                    crate::env::block_on(crate::reader::take_raw_async(&mut reader.stream(), n, via_buf, remaining))
+                });
             out.env = log.borrow().clone();
         }
     }
@@ -372,6 +375,36 @@ pub fn take_raw<S: std::io::BufRead>(s: &mut S, n: usize, via_buf: bool) -> std:
                 break;
             }
         }
+    }
+    Ok(out)
+}
+
+/// The same through the tokio traits of `BinaryStream`: `read_exact` keeps polling with ONE partly filled `ReadBuf` while the
+/// source delivers pieces (and answers Pending); `fill_buf` + `consume` otherwise.  `remaining` = bytes the source still has.
+pub async fn take_raw_async<S: tokio::io::AsyncBufRead + tokio::io::AsyncRead + Unpin>(s: &mut S, n: usize, via_buf: bool, remaining: usize) -> std::io::Result<Vec<u8>> {
+    use tokio::io::{AsyncBufReadExt, AsyncReadExt};
+    let mut out = Vec::new();
+    if via_buf {
+        while out.len() < n {
+            let avail = s.fill_buf().await?;
+            if avail.is_empty() {
+                break;
+            }
+            let k = avail.len().min(n - out.len());
+            out.extend_from_slice(&avail[..k]);
+            s.consume(k);
+        }
+    } else {
+        let m = n.min(remaining);
+        let mut b = vec![0u8; m];
+        if m > 0 {
+            s.read_exact(&mut b).await?;
+        } else {
+            let mut one = [0u8; 1];
+            let k = s.read(&mut one).await?;
+            b.extend_from_slice(&one[..k]);
+        }
+        out = b;
     }
     Ok(out)
 }
